@@ -225,6 +225,22 @@ class Engine(CallMixin):
                 if lab.endswith(suf):
                     serves = tuple(props)
             self.oblige(st2, lab, "ensures", g, fi.node, serves)
+        if c.aliases is not None:
+            from .state import unwrap
+            for path, val in c.aliases(env).items():
+                parts = path.split(".")
+                cur = result if parts[0] == "result" else binds.get(parts[0])
+                ok: Any = True
+                for p_ in parts[1:]:
+                    if isinstance(cur, Opt):
+                        cur = cur.val
+                    if not isinstance(cur, Ref) or not st2.obj(cur).has(p_):
+                        ok = False
+                        break
+                    cur = st2.obj(cur).get(p_)
+                if ok is True:
+                    ok = self.identical(st2, cur, unwrap(val), fi.node)
+                self.oblige(st2, f"alias.{path}", "ensures", ok, fi.node)
         self.check_list_cases(c, c.lists, env, st2, binds, result, fi.node, "")
         self.check_linear(st2, result, fi.node, "")
         self._check_frame(c, fi, st2, binds, old_heap, c.modifies)
@@ -310,6 +326,22 @@ class Engine(CallMixin):
                 lref = self.resolve_list_path(st, path, binds, result)
                 ok = lref is not None and match(tuple(st.obj(lref).get("items")), list(items))
                 self.oblige(st, f"{tag}lists.{case['label']}.{path}", "ensures", Implies(when, ok), node)
+            for path, val in case.get("alias", {}).items():
+                parts = path.split(".")
+                cur = result if parts[0] == "result" else binds.get(parts[0])
+                ok2: Any = True
+                for p_ in parts[1:]:
+                    if isinstance(cur, Opt):
+                        cur = cur.val
+                    if not isinstance(cur, Ref) or not st.obj(cur).has(p_):
+                        ok2 = False
+                        break
+                    cur = st.obj(cur).get(p_)
+                if ok2 is True:
+                    cur = cur.val if isinstance(cur, Opt) else cur
+                    v2 = unwrap(val)
+                    ok2 = isinstance(cur, Ref) and isinstance(v2, Ref) and cur == v2
+                self.oblige(st, f"{tag}alias.{case['label']}.{path}", "ensures", Implies(when, ok2), node)
 
     def check_linear(self, st: State, result: Any, node: Any, where: str, since: int = 0) -> None:
         """every linear resource (a frame taken out of a flow) obtained on this path was returned or yielded"""
